@@ -441,8 +441,62 @@ def c13_r1(ctx):
     pr = facts.method(ET, 'process', trait='renoir::operator::window::WindowManager')
     sk = bool_closures(facts, pr, '::skip_while')
     tk = bool_closures(facts, pr, '::take_while')
+    # whatever the form of the scan: a stage that cuts it by a COUNT (take(n), skip(n), step_by, nth ...) bounds the slots an element can
+    # reach by something other than their interval - an element whose window is still open but lies further from the end of the queue
+    # than the count is assigned to no window
+    sym0 = q.sym(facts, pr)
+    for bi, t in pr.calls():
+        pth = t['callee'].get('path') or ''
+        nm = pth.rsplit('::', 1)[-1]
+        if pth.startswith('std::iter::Iterator::') and nm in ('take', 'skip', 'step_by', 'nth', 'last', 'nth_back', 'next_back', 'find', 'position', 'rposition'):
+            recv = render(strip(sym0.operand(t['args'][0])))
+            if '.ws' in recv and 'iter_mut' in recv:
+                ctx.inst('EventTime::process|scan-cut|%s' % nm, {'at': t['at'], 'receiver': recv[:120]})
+                ctx.viol('%s|scan-cut|%s' % (ET, nm), t['at'],
+                         'the scan that assigns an element to its windows is cut by `%s(..)`: which slots it reaches then depends on their position in the '
+                         'queue, not on their interval - an out-of-order element whose window is still open can be assigned to no window' % nm, None)
     if not sk or not tk:
-        raise AnchorMissing('EventTimeWindowManager::process must select slots with skip_while / take_while')
+        # filter form: assigned iff the closure holds; it must be exactly start <= ts && ts < end
+        fl = bool_closures(facts, pr, '::filter')
+        fl = [(bi, t, g) for bi, t, g in fl if '.ws' in render(strip(sym0.operand(t['args'][0]))) and 'iter_mut' in render(strip(sym0.operand(t['args'][0])))]
+        if not fl:
+            raise AnchorMissing('EventTimeWindowManager::process selects slots neither with skip_while / take_while nor with filter')
+        for bi, t, g in fl:
+            pg = q.pe(facts, g)
+            tg = {}
+            sg = q.sym(facts, g)
+            for gb, blk in enumerate(g.blocks):
+                for s_ in blk['s']:
+                    if s_['k'] == 'assign' and s_['lhs'] == [0]:
+                        tg[gb] = render(strip(sg.rvalue(s_['rv'])))
+            res = pg.paths(lambda b, st: b in tg)
+            ok_lo = ok_hi = True
+            n = 0
+            for c, tb in res:
+                val = tg[tb]
+                if val == 'false':
+                    continue
+                n += 1
+                atoms = list(c)
+                # the last comparison may be the returned value itself
+                lo = [a for a in atoms if a[0] == 'cmp' and ('.start' in a[1] or '.start' in a[2])]
+                hi = [a for a in atoms if a[0] == 'cmp' and ('.end' in a[1] or '.end' in a[2])]
+                txt = val
+                def rel_of(a, fld):
+                    # relation of the slot field to ts
+                    return a[3] if fld in a[1] else frozenset(FLIP[r] for r in a[3])
+                lo_ok = any(rel_of(a, '.start') == frozenset(['<', '=']) for a in lo) or ('Le(' in txt and '.start' in txt.split(',')[0])
+                hi_ok = any(rel_of(a, '.end') == frozenset(['>']) for a in hi) or ('Lt(' in txt and '.end' in txt.split(',')[-1]) or ('Gt(' in txt and '.end' in txt.split(',')[0])
+                ok_lo = ok_lo and lo_ok
+                ok_hi = ok_hi and hi_ok
+            ctx.inst('EventTime::process|filter', {'at': t['at'], 'accepting paths': n, 'start <= ts on all': ok_lo, 'ts < end on all': ok_hi})
+            if n == 0 or not ok_lo:
+                ctx.viol('%s|interval-lower' % ET, t['at'], 'the slot filter does not require start <= ts on every accepting path (half-open interval [start, end))', None)
+            if n == 0 or not ok_hi:
+                ctx.viol('%s|interval-upper' % ET, t['at'], 'the slot filter does not require ts < end on every accepting path (half-open interval [start, end))', None)
+        sk = tk = None
+    if sk is None:
+        return c13_r1_slots(ctx, facts)
     d, neg = closure_cmp(facts, sk[0][2])
     rel, a, b = cmp_rel_of(d, lambda x: x.endswith('.end')) if d else (None, '', '')
     if rel is not None and neg:
@@ -460,6 +514,10 @@ def c13_r1(ctx):
     if rel != frozenset(['<', '=']):
         ctx.viol('%s|interval-lower' % ET, tk[0][1]['at'],
                  'a slot is taken iff start {%s} ts; the half-open interval [start, end) requires start <= ts' % (''.join(sorted(rel)) if rel else '?'), None)
+    c13_r1_slots(ctx, facts)
+
+
+def c13_r1_slots(ctx, facts):
     # slots are created with end = start + size, consecutive starts differ by slide
     aw = facts.method(ET, 'alloc_windows')
     sym = q.sym(facts, aw)
